@@ -237,7 +237,8 @@ PROPS["C12"] = {
 }
 
 PROPS["C03"] = {
-    "streams": [{"name": "inst"}, {"name": "tlv"}, {"name": "master"}, {"name": "timed"}],
+    "streams": [{"name": "inst"}, {"name": "tlv"}, {"name": "master"}, {"name": "timed"},
+                {"name": "filt", "chunk_prefixes": ["FLT knew", "FLT bnew"]}],
     "model_is_spec": ["inst", "tlv", "master", "timed"],
     "profiles_thorough": ["debug", "release"],
     "model_profiles": ["debug"],
@@ -251,6 +252,33 @@ PROPS["C03"] = {
     "explanation": "Lean: bounded-state invariant, totality of every port-level handler on bounded state and inputs, BMCA keeps the bound, failure kinds of a BMCA run",
     "assumptions": INST_ASSUME + ["host timestamps below 2^63 ns, frames of at most 65535 octets, |delay asymmetry| < 2^78 ns (BA), the host's filter returns mean delays it was given (recording filter): the hypotheses of the totality theorems",
                    "the Kalman / basic filters, the clock overlay and the daemon are outside this model (C13, C18, C20)"],
+}
+
+PROPS["C13"] = {
+    "streams": [{"name": "filt", "chunk_prefixes": ["FLT knew", "FLT bnew"]}],
+    "profiles_thorough": ["debug", "release"],
+    "model_profiles": ["debug"],
+    "spec_theorem": "",
+    "rule": "filt: the real KalmanFilter and BasicFilter, call by call (measurement / update / demobilize), against a recording clock "
+            "that refuses commands intermittently. Scenarios: servo configurations (step threshold 1 ns … 10^6 s, max_freq_offset 10^-3 … 10^5 ppm "
+            "incl. values that are not round in binary, max_steer, steer time, dead zone, estimator boundaries, hysteresis, wander), then "
+            "histories of up to 120 (thorough: 400) measurements of eight shapes: steady link with drift and jitter 0 … 1 ms (zero jitter = "
+            "zero-variance sample sets), repeated and equal event times, event times running backwards or jumping by up to 2^58 ns, extreme "
+            "and alternating offsets up to ±10^9 s and up to 2^94 units, offsets hovering around ± the step threshold, sync / delay / "
+            "peer-delay kinds mixed, update calls in between, demobilize at the end; a step the clock accepted moves the clock and all later "
+            "timestamps. Compared with the Lean model after every call, bit for bit: the commands given to the clock (frequency as binary64 "
+            "bit pattern, step as I96F32 bits, accepted / refused), the returned FilterUpdate, current_estimates() and the complete filter "
+            "state (state vector, covariance, filter time of both Kalman filters, wander, wander score, noise estimator samples, programmed "
+            "frequency; basic filter: last step, confidences, frequency). Independent oracle on the implementation: every Kalman frequency "
+            "finite and |f| <= max_freq_offset, every Kalman step at least the threshold (both passed through the same f64 -> Duration "
+            "conversion), every basic-filter frequency finite, at most one command - a frequency - on demobilize; panics are reported under C03. "
+            "distinct = distinct op lines that issued a command",
+    "explanation": "Lean: servo model over bit-level binary64 comparisons and conversions, arbitrary rounding arithmetic; theorems for every arithmetic and history",
+    "assumptions": ["the rounding operations (+ - * / sqrt exp) are a parameter of the model: the theorems hold for every choice of them; that the driver's choice (Lean Float = the processor's binary64) is what the Rust code computes with is checked by the bit-exact correspondence, not proved",
+                    "that the estimator never produces a NaN is not proved (it is a property of floating-point trajectories): the theorems say 'within the bound, and finite unless NaN'; NaN-freedom rests on the sampled histories of the filt stream",
+                    "clock contract: set_frequency / step_clock return the clock's reading, which is not earlier than any timestamp the clock issued before (otherwise progress_filtertime's debug assertion fires)",
+                    "configuration: positive finite thresholds and bounds, difference_estimation_boundary >= 1, precision_hysteresis <= 127 (documented maxima), basic filter gain in (0, 1]"],
+    "nontrivial_op": None,
 }
 
 PROPS["C17"] = {
@@ -341,6 +369,10 @@ def projection(pid, stream, profile):
         def f3(op, obs):
             return "panic" if "R panic" in obs else "returned"
         return f3
+    if pid == "C13":
+        def f13(op, obs):
+            return "R panic" if obs.startswith("R panic") else obs
+        return f13
     if pid == "C12":
         def f12(op, obs):
             items = obs.split(" | ")[0].split(" ; ")
@@ -406,12 +438,14 @@ def count_nontrivial(pid, stream, ops, workdir):
 def replay_body(pid, stream, ops, idx):
     """op lines needed to reproduce line idx: stateless streams need only that line"""
     if stream in STATEFUL:
-        # everything since the last INIT line
+        # everything since the line that started the scenario
+        starts = SCENARIO_START.get(stream, ("INIT",))
         start = idx
-        while start > 0 and not ops[start].startswith("INIT"):
+        while start > 0 and not ops[start].startswith(starts):
             start -= 1
         return "\n".join(ops[start:idx + 1]) + "\n"
     return ops[idx] + "\n"
 
 
-STATEFUL = {"inst", "bmca", "fml", "c07", "master", "view", "tlv", "timed"}
+STATEFUL = {"inst", "bmca", "fml", "c07", "master", "view", "tlv", "timed", "filt", "loop"}
+SCENARIO_START = {"filt": ("FLT knew", "FLT bnew"), "loop": ("FLT knew", "FLT bnew")}
